@@ -286,11 +286,11 @@ var headerNames = map[string]Header{
 func readHeader(line string) map[Header]int {
 	tokens := Explode(line, []rune{',', ';', '\t', ' '})
 	headers := make(map[Header]int)
-	for kHeader, vHeader := range headerNames {
-		for i, token := range tokens {
-			if token == kHeader {
+	// the first column that names a quantity (by any of its aliases) wins
+	for i, token := range tokens {
+		if vHeader, ok := headerNames[token]; ok {
+			if _, exists := headers[vHeader]; !exists {
 				headers[vHeader] = i
-				break
 			}
 		}
 	}
